@@ -396,3 +396,14 @@ def rules(t):
     out = _rules_c09_w5(t)
     out.append(W5.ack_dispatch(t, "C09.j"))
     return out
+
+
+_rules_C09_w9 = rules
+def rules(t, *a, **kw):
+    import rules.wave5 as W5
+    out = _rules_C09_w9(t, *a, **kw)
+    # EXPIRY-SCAN (defect F18): incomplete unreliable fragments stop counting 3 s after their last progress only if the expiry scan looks at
+    # every entry: slices_last_received is keyed by message id, and under reordering / duplication ids are not ordered by the time of their last
+    # slice, so a scan that stops at the first entry that has not expired leaves stale fragments with higher ids accounted
+    out.append(W5.full_visit(t, "C09.k", "the expiry scan over slices_last_received visits every entry (it does not stop at the first fragment that has not expired: entries are ordered by message id, not by the time of their last slice)", "ReceiveChannelUnreliable::discard_incomplete_old_slices", "slices_last_received"))
+    return out
